@@ -58,8 +58,9 @@ CHECKS = {
              "structure patching, driven through the real first-match dispatch (threaded) / async_handle+async_handled "
              "(async): symbolic block, symbolic change positions and values, an arbitrary pending-change list left in "
              "the handler before the first message, refreshes interleaved. The final block must equal the reference "
-             "fold of the updates (array equality by skolem index); exactly one STATQ per STATP, protocol-range sequence; "
-             "bursts of updates through the real consume() loop.",
+             "fold of the updates (array equality by skolem index); exactly one STATQ per STATP carrying the next protocol "
+             "number; bursts of updates through the real consume() loop; two client instances in one process, each "
+             "block the fold of its own updates only.",
         note="Bounded: <=2 (quick) / <=3 (thorough) messages of 0..3 changes, refresh <=3 bytes, pending list <=2.",
         ref="5/C05"),
     "C06": dict(
@@ -127,6 +128,7 @@ CHECKS = {
              "STATP that the real handler installs. Symbolic: the current state of the items the command touches, the "
              "argument, both counters. Exactly one well-formed command with pack type, versions and command-range "
              "sequence, the item reads the requested value after the echo, no datagram when already in the requested state; "
+             "a first command whose every transmission is lost leaves the reported state and is sent again when repeated; "
              "three-command sequences on pump demands sharing a word; a unit command followed by a temperature command; "
              "watercare from any prior belief of the client.",
         note="One command per path; wiring from the 6 configurations of the 34 shipped snapshots; three concrete "
@@ -136,7 +138,8 @@ CHECKS = {
         text="Real GeckoTempStructAccessor and GeckoWaterHeater under IEEE-754 double semantics (z3 FloatingPoint): "
              "decode formula, enc(dec(r)) == r for all 65536 raw words in both units (sync and async path), decimal "
              "inputs k/10 (k/100 thorough) within one device step and order preserving, strict monotonicity of the "
-             "decoder, unit symbol/limits/operation ladder on every distinct heater layout of the 895 combinations.",
+             "decoder, unit symbol/limits/operation ladder on every distinct heater layout of the 895 combinations, also after a "
+             "unit command that is never answered.",
         note="z3 qffpbv tactic decides the FP lemmas; heater units compare temperatures through raw words (ratio "
              "abstraction) justified by the monotone.* lemma units of the same check.",
         ref="5/C14"),
@@ -176,7 +179,8 @@ CHECKS = {
         text="One inductive step of both real sequence-counter implementations from an arbitrary in-range pre-state "
              "(covers every call history), and the sequence byte of every real request factory of the async and the "
              "threaded client with symbolic counters; a second (thorough: third) thread's call stepped in at every lock "
-             "boundary of the threaded counter; instance independence and a long run through the public API.",
+             "boundary of the threaded counter; instance independence and a long run through the public API; the numbers handed out while the real "
+             "GeckoAsyncUdpProtocol.get retries under per-attempt loss, with an outside party drawing during the wait (<= 3 attempts).",
         note="Bit-vector model of Python ints with discharged no-overflow obligations; preemption only at lock "
              "boundaries (between them the lock discipline - every counter access under the socket lock - is asserted).",
         ref="5/C16"),
